@@ -118,6 +118,8 @@ def chain_term(l):
             out.append("RFixed %s %s" % (lit(x["id"]), lit(x["value"])))
         elif x["type"] in RES:
             out.append(RES[x["type"]])
+        elif x["type"].startswith("!"):
+            continue   # the wiring lost this object: the shortened chain fails Tie/EnvTie.v and the correspondence
         else:
             raise GenError("unknown resolver " + x["type"])
     return "[" + "; ".join(out) + "]"
@@ -203,6 +205,8 @@ def gen_files(tooldir):
         ev.append("  %s := %s;" % (k, v))
     ev[-1] = ev[-1].rstrip(";")
     ev.append("|}.")
+    ev.append("(* the resolver chain StepCompileDecorators is wired with (the model uses one chain for service and decorator arguments) *)")
+    ev.append("Definition deco_arg_chain : list resolver_kind := %s." % chain_term(consts.get("decoratorArgResolver", consts["argResolver"])))
     return {"RegexSrc.v": "\n".join(rs) + "\n", "EnvGen.v": "\n".join(ev) + "\n"}
 
 
